@@ -166,6 +166,8 @@ def check_bootstrap(case):
         data["z"] = [2**60 + int(k) for k in rng.integers(0, 10**6, size=n0 + n1)]
     kw = dict(alternative=case["alt"], confidence_level=case["cl"], n_resamples=case["n_resamples"], method=case["method"],
               random_state=case["seed"])
+    if case.get("batch"):
+        kw["batch"] = case["batch"]
     fails = []
     cols = case["cols"]
     stat = np.mean if case["stat"] == "mean" else np.median
@@ -173,6 +175,10 @@ def check_bootstrap(case):
         stat = _low_digits
     try:
         tab = B.make_table(case["backend"], data)
+        if case.get("rechunk") and case["backend"] in ("pyarrow", "polars", "polars-lazy"):
+            import random as _random
+            from props.C02 import _rechunk
+            tab = _rechunk(case["backend"], tab, _random.Random(case["data_seed"]))     # several chunks / record batches
         if case["kind"] == "quantile":
             m = tt.Quantile(cols[0], case["q"], **kw)
             f = lambda a, axis: np.nanquantile(a, case["q"], axis=axis)
@@ -214,7 +220,7 @@ def check_bootstrap(case):
         with np.errstate(divide="ignore", invalid="ignore"):
             return np.stack((sb - sa, np.divide(sb, sa) - 1), axis=0)
     ref = st.bootstrap((c, t), stacked, n_resamples=case["n_resamples"], axis=0, confidence_level=case["cl"],
-                       alternative=case["alt"], method=case["method"], random_state=case["seed"])
+                       alternative=case["alt"], method=case["method"], random_state=case["seed"], batch=case.get("batch"))
     sc, stt = f(c, 0), f(t, 0)
     want = {"control": sc, "treatment": stt, "effect_size": stt - sc, "rel_effect_size": stt / sc - 1,
             "effect_size_ci_lower": ref.confidence_interval.low[0], "effect_size_ci_upper": ref.confidence_interval.high[0],
@@ -328,7 +334,8 @@ def oracle(ctx, deep=False):
                 "n_resamples": ctx.rng.choice([30, 99]), "method": ctx.rng.choice(["percentile", "basic", "bca"]),
                 "seed": ctx.rng.randint(0, 10**6), "data_seed": ctx.rng.randint(0, 10**6), "q": ctx.rng.choice([0.25, 0.5, 0.9]),
                 "sizes": [ctx.rng.randint(8, 40), ctx.rng.randint(8, 40)], "stat": ctx.rng.choice(["mean", "median"]),
-                "cols": ctx.rng.sample(["x", "y", "z"], 1 if kind == "quantile" else ctx.rng.choice([1, 1, 2]))}
+                "cols": ctx.rng.sample(["x", "y", "z"], 1 if kind == "quantile" else ctx.rng.choice([1, 1, 2])),
+                "batch": ctx.rng.choice([None, None, 7, 10]), "rechunk": ctx.rng.random() < 0.5}
         try:
             fails = check_bootstrap(case)
         except Exception as e:
